@@ -506,6 +506,7 @@ func TestVerif_C08_Response(t *testing.T) {
 	}
 	g.flush()
 	c08ContinuousPhase(t, run)
+	c08RequestPlusPhase(t, run)
 	run.Count("boundary_requests", boundaryPolls)
 	run.Count("boundary_requests_at_late_arrival", boundaryLate)
 	c08CountClients(run, clients)
@@ -1123,4 +1124,219 @@ func c08ContinuousPhase(t *testing.T, run *vlib.Run) {
 	run.Evals(st.cases)
 	run.Count("continuous_events_delivered", st.events)
 	run.Count("continuous_states_checked", st.states)
+}
+
+// ---------------------------------------------------------------------------------------------
+// one-shot request_plus requests spanning arrivals: a one-shot request that has to wait for the cache to reach a given
+// sequence runs several iterations; whatever is forwarded to its channels while it waits - in order or as a late
+// arrival - must be in its rows, or be returned to a client that resumes from the request's last row.
+
+func c08RequestPlusPhase(t *testing.T, run *vlib.Run) {
+	d := c08NewDBRig(t, run, "response")
+	defer func() { d.close() }()
+	g := d.g
+	total := run.N(300, 5000)
+	const w = 12
+	requests, lateDuring, inOrderDuring, rowsTotal, resumed := 0, 0, 0, 0, 0
+	for ci := 0; ci < total; ci++ {
+		r := run.CaseRand(2000000 + ci)
+		events := c08RandomEvents(r, w, false, "")
+		c08ValidateEvents(t, events, w)
+		order := c08RandomOrder(r, len(events), 2)
+		overdue := c08RandomOverdue(r, len(events))
+		maxNum := vlib.Pick(r, []int{0, 0, 1, 2, 3, w})
+		if !g.beginCase(events, w, overdue, maxNum) {
+			continue
+		}
+		donor := c08NewClient("donor{*}", "*")
+		donor.begin(g)
+		wantLow := r.Chance(3, 4)
+		fallback := r.Intn(len(order))
+		fromStart := r.Chance(1, 2) // the request comes from a client that has seen nothing of the window (plain since token), after 1-3 deliveries
+		startAfter := r.Intn(3)
+		names := []string{"A", "B"}
+		var mask uint8
+		for _, n := range names {
+			mask |= c08ChanBit(n)
+		}
+		type rpFeed struct {
+			mu     sync.Mutex
+			got    map[string]int
+			sent   []string
+			closed bool
+			errs   int
+		}
+		var f *rpFeed
+		var cancel context.CancelFunc
+		startCalls, sinceTok, startedAt := 0, "", ""
+		noStart := false
+		ok := true
+		for k, ei := range order {
+			if !g.deliver(ei) {
+				ok = false
+				break
+			}
+			where := fmt.Sprintf("after-delivery #%d", k+1)
+			if !d.poll(donor, where, true) {
+				ok = false
+				break
+			}
+			if f == nil && !noStart && k < len(order)-1 {
+				tok, _ := ParsePlainSequenceID(donor.token)
+				hasLow := tok.LowSeq > 0 && tok.LowSeq < tok.Seq
+				startTok := donor.token
+				if fromStart {
+					startTok = strconv.FormatUint(g.base, 10)
+				}
+				if (fromStart && k >= startAfter) || (!fromStart && ((wantLow && hasLow) || (!wantLow && k >= fallback))) || k == len(order)-2 {
+					since, err := ParsePlainSequenceID(startTok)
+					if err != nil || g.cc.getNextSequence() > g.base+uint64(w) {
+						// (the cache is already at the end of the window: the request would not wait)
+						noStart = true
+						continue
+					}
+					var cctx context.Context
+					cctx, cancel = context.WithCancel(d.ctx)
+					feed, err := d.col.MultiChangesFeed(cctx, base.SetOf(names...), ChangesOptions{Since: since, RequestPlusSeq: g.base + uint64(w), ChangesCtx: cctx})
+					if err != nil {
+						cancel()
+						run.Inconclusive("request_plus request could not be started: " + err.Error())
+						ok = false
+						break
+					}
+					f = &rpFeed{got: map[string]int{}}
+					sinceTok, startedAt = startTok, where
+					startCalls = len(g.rec.snapshot())
+					ff := f
+					go func() {
+						for e := range feed {
+							ff.mu.Lock()
+							switch {
+							case e == nil:
+							case e.Err != nil:
+								ff.errs++
+							default:
+								ff.got[strconv.FormatUint(e.Seq.Seq, 10)+"/"+e.ID]++
+								ff.sent = append(ff.sent, e.Seq.String())
+							}
+							ff.mu.Unlock()
+						}
+						ff.mu.Lock()
+						ff.closed = true
+						ff.mu.Unlock()
+					}()
+					requests++
+					// let the request run its first iteration before the next arrival (state: it has sent what the donor has seen,
+					// bounded wait; which iteration an arrival falls into only selects the schedule)
+					time.Sleep(2 * time.Millisecond)
+				}
+			}
+		}
+		if ok {
+			ok = g.endCase()
+		} else {
+			g.st.cases++
+		}
+		if f != nil {
+			deadline := time.Now().Add(4 * time.Second)
+			closed := false
+			for time.Now().Before(deadline) {
+				f.mu.Lock()
+				closed = f.closed
+				f.mu.Unlock()
+				if closed {
+					break
+				}
+				d.db.mutationListener.NotifyCheckForTermination(d.ctx, base.SetOf("c08"))
+				time.Sleep(300 * time.Microsecond)
+			}
+			cancel()
+			if !closed {
+				run.Inconclusive("one-shot request_plus request did not finish although the cache reached its sequence")
+				g.rebuild()
+				continue
+			}
+			if ok {
+				f.mu.Lock()
+				last := sinceTok
+				if n := len(f.sent); n > 0 {
+					last = f.sent[n-1]
+				}
+				sent := append([]string{}, f.sent...)
+				got := map[string]int{}
+				for k2, v := range f.got {
+					got[k2] = v
+				}
+				errs := f.errs
+				f.mu.Unlock()
+				rowsTotal += len(sent)
+				// the client resumes from the request's last row
+				lastSeq, perr := ParsePlainSequenceID(last)
+				var resumedRows []string
+				if perr == nil {
+					if feed2, err := d.col.MultiChangesFeed(d.ctx, base.SetOf(names...), ChangesOptions{Since: lastSeq, ChangesCtx: d.ctx}); err == nil {
+						for e := range feed2 {
+							if e != nil && e.Err == nil {
+								got[strconv.FormatUint(e.Seq.Seq, 10)+"/"+e.ID]++
+								resumedRows = append(resumedRows, e.Seq.String())
+							}
+						}
+						resumed++
+					}
+				}
+				calls := g.rec.snapshot()
+				var missingLate, missingInOrder []string
+				for k2 := startCalls; k2 < len(calls); k2++ {
+					c := calls[k2]
+					if c.Chans&mask == 0 {
+						continue
+					}
+					if c.Late {
+						lateDuring++
+					} else {
+						inOrderDuring++
+					}
+					if got[strconv.FormatUint(c.Seq, 10)+"/"+c.DocID] == 0 {
+						desc := fmt.Sprintf("%s at sequence %d (relative %d)", c.DocID, c.Seq, int64(c.Seq)-int64(g.base))
+						if c.Late {
+							missingLate = append(missingLate, desc)
+						} else {
+							missingInOrder = append(missingInOrder, desc)
+						}
+					}
+				}
+				if errs == 0 && (len(missingLate) > 0 || len(missingInOrder) > 0) {
+					shape := "in-order-arrival"
+					if len(missingLate) > 0 {
+						shape = "late-arrival"
+					}
+					d.viol.Add(1)
+					run.Violation("request-plus", "C08|response|one-shot-request-plus-spanning-arrivals|"+shape+"-neither-in-its-rows-nor-returned-from-its-last-row",
+						fmt.Sprintf("a one-shot request_plus request (channels %v, since %s, started %s) ended on row %s; forwarded to its channels while it ran but neither in its rows nor returned to a request resuming from that row: late %v, in order %v",
+							names, sinceTok, startedAt, last, missingLate, missingInOrder),
+						map[string]any{"deliveries": g.deliveryLabels(), "window_base": g.base, "since": sinceTok, "started": startedAt, "request_plus_sequence_rel": w,
+							"rows": sent, "rows_of_the_request_resuming_from_the_last_row": resumedRows, "pending_max_num": maxNum})
+					ok = false
+				}
+			}
+		}
+		if ok && g.sawLate && f != nil {
+			run.Nontrivial("request-plus|" + strings.Join(g.deliveryLabels(), " ") + "|" + strconv.Itoa(maxNum))
+		}
+		if !ok {
+			g.rebuild()
+			if g.nViol+int(d.viol.Load()) >= 8 {
+				break
+			}
+		}
+	}
+	run.Count("request_plus_requests_spanning_arrivals", requests)
+	run.Count("request_plus_late_arrivals_while_the_request_ran", lateDuring)
+	run.Count("request_plus_in_order_arrivals_while_the_request_ran", inOrderDuring)
+	run.Count("request_plus_rows", rowsTotal)
+	run.Count("request_plus_resumes_from_the_last_row", resumed)
+	st := g.st
+	g.st = c08Stats{}
+	run.Count("request_plus_cases", st.cases)
+	run.Evals(st.cases)
 }
